@@ -62,8 +62,8 @@ CHECKS = {
  "C19": (True, "proptest choice-stream PBT: array model for every mesh access path under generated write histories; double-double cell sums and closed forms for quadrature; linear-interpolant oracle; output/read round trip through scratch files",
          "Tens of thousands of generated 1-D/2-D meshes on non-uniform dyadic grids with write histories through every path; stored values, cross-sections, matrix views, interpolation, trapezium rules and the file round trip are compared with the model.",
          "Trusted: the array model, double-double sums; interpolation points kept 1e-6 away from nodes as the property allows.", "5/C19"),
- "C20": (True, "exhaustive table enumeration: 64 checked entry points x all size pairs up to 6 x all out-of-range variants, catch_unwind outcome + receiver snapshot; model-based clone-interleaving histories; by-reference/consuming differential; proptest for the random families",
-         "Every checked entry point is called with every mismatched pair of sizes up to 6 and every out-of-range argument variant in every run (9408 configurations): it must panic and leave a &mut receiver untouched, and the conformable call must succeed; clones are mutated independently against two models; by-reference forms are compared with consuming forms and operand snapshots.",
+ "C20": (True, "exhaustive table enumeration: 66 table entries (about 90 checked entry points) x all size pairs up to 6 x all out-of-range variants, catch_unwind outcome + receiver snapshot; model-based clone-interleaving histories; by-reference/consuming differential; proptest for the random families",
+         "Every checked entry point is called with every mismatched pair of sizes up to 6 and every out-of-range argument variant in every run (9702 configurations): it must panic and leave a &mut receiver untouched, and the conformable call must succeed; clones are mutated independently against two models; by-reference forms are compared with consuming forms and operand snapshots.",
          "Trusted: catch_unwind as the observation of rejection; the entry-point table (listed in the evidence classes) as the enumeration of 'every checked entry point'.", "5/C20"),
 }
 NOT_YET = "check not built yet in this revision of /verif (work in progress); the design for it is in DESIGN.md section 5"
